@@ -48,8 +48,9 @@ func runC18(rc *RC) {
 	type cb struct{ from, kind string }
 	var callbacks []cb
 	invites := map[string]int{}
+	wantInv := map[string]int{}
 	client := &muc.Client{
-		HandleInvite: func(i muc.Invitation) { invites[i.Reason]++ },
+		HandleInvite: func(i muc.Invitation) { invites[i.Reason+"|"+i.Password+"|"+i.Thread]++ },
 		HandleUserPresence: func(p stanza.Presence, it muc.Item) {
 			callbacks = append(callbacks, cb{p.From.String(), string(p.Type)})
 		},
@@ -142,6 +143,17 @@ func runC18(rc *RC) {
 		}))
 	}
 	// scripted room service
+	// what occupants' clients add to their presence and rooms reflect: other payloads before or after the muc#user one
+	extras := func() (pre, post string) {
+		pool := []string{`<x xmlns="vcard-temp:x:update"><photo>abc</photo></x>`, `<priority>1</priority>`, `<c xmlns="http://jabber.org/protocol/caps" hash="sha-1" node="n" ver="v"/>`, `<x xmlns="urn:verif:other"/>`}
+		if ch.Chance("workload", 1, 3) {
+			pre = pool[ch.Int("workload", len(pool))]
+		}
+		if ch.Chance("workload", 1, 3) {
+			post = pool[ch.Int("workload", len(pool))]
+		}
+		return
+	}
 	peer := rc.Spawn("peer", func() {
 		d := xml.NewDecoder(e.Peer)
 		depth := 0
@@ -173,7 +185,8 @@ func runC18(rc *RC) {
 						if typ == "unavailable" {
 							c.ansAt, c.ansStep = rc.S.Now(), rc.S.Steps
 							answers[to] = append(answers[to], roomAns{"unavail", rc.S.Steps, rc.S.Now(), c})
-							e.PeerWrite(fmt.Sprintf(`<presence from="%s" type="unavailable"><x xmlns="http://jabber.org/protocol/muc#user"><item affiliation="member" role="none"/><status code="110"/></x></presence>`, to))
+							pre, post := extras()
+							e.PeerWrite(fmt.Sprintf(`<presence from="%s" type="unavailable">%s<x xmlns="http://jabber.org/protocol/muc#user"><item affiliation="member" role="none"/><status code="110"/></x>%s</presence>`, to, pre, post))
 							c.answered = "unavail"
 						} else {
 							for k := 0; k < c.others; k++ {
@@ -181,7 +194,8 @@ func runC18(rc *RC) {
 							}
 							c.ansAt, c.ansStep = rc.S.Now(), rc.S.Steps
 							answers[to] = append(answers[to], roomAns{"self", rc.S.Steps, rc.S.Now(), c})
-							e.PeerWrite(fmt.Sprintf(`<presence from="%s"><x xmlns="http://jabber.org/protocol/muc#user"><item affiliation="member" role="participant"/><status code="110"/></x></presence>`, to))
+							pre, post := extras()
+							e.PeerWrite(fmt.Sprintf(`<presence from="%s">%s<x xmlns="http://jabber.org/protocol/muc#user"><item affiliation="member" role="participant"/><status code="110"/></x>%s</presence>`, to, pre, post))
 							c.answered = "self"
 						}
 					case 1:
@@ -218,7 +232,22 @@ func runC18(rc *RC) {
 		}
 		for i := 0; i < nInv; i++ {
 			simrt.Sleep(time.Duration(ch.Range("workload", 0, 30)) * 10 * time.Millisecond)
-			e.PeerWrite(fmt.Sprintf(`<message from="roomx@conf.example.net"><x xmlns="http://jabber.org/protocol/muc#user"><invite from="friend@example.net"><reason>inv%d</reason></invite></x></message>`, i))
+			// the forms a room may relay (XEP-0045 7.8.2): with or without reason, password, continuation; nothing but the sender
+			var body, key string
+			switch ch.Int("workload", 5) {
+			case 0:
+				body, key = fmt.Sprintf(`<invite from="friend@example.net"><reason>inv%d</reason></invite>`, i), fmt.Sprintf("inv%d||", i)
+			case 1:
+				body, key = `<invite from="friend@example.net"/>`, "||"
+			case 2:
+				body, key = fmt.Sprintf(`<invite from="friend@example.net"/><password>pw%d</password>`, i), fmt.Sprintf("|pw%d|", i)
+			case 3:
+				body, key = fmt.Sprintf(`<invite from="friend@example.net"><continue thread="th%d"/></invite>`, i), fmt.Sprintf("||th%d", i)
+			default:
+				body, key = fmt.Sprintf(`<invite from="friend@example.net" to="me@example.net"><reason>inv%d</reason></invite><password>pw%d</password>`, i, i), fmt.Sprintf("inv%d|pw%d|", i, i)
+			}
+			wantInv[key]++
+			e.PeerWrite(fmt.Sprintf(`<message from="roomx%d@conf.example.net"><x xmlns="http://jabber.org/protocol/muc#user">%s</x></message>`, i, body))
 			rc.Fire("invite")
 		}
 		e.PeerWrite(`<message from="someone@example.net" type="chat"><body>unrelated</body></message>`)
@@ -347,10 +376,21 @@ func runC18(rc *RC) {
 	}
 	rc.Check("C18.c6", "session-ended-early", !e.ServeDone, "Serve returned %v while only presences of never-joined rooms, invitations and answers to our own calls were received", e.ServeErr)
 	// c7: each invitation reaches the callback exactly once
-	for i := 0; i < nInv; i++ {
+	for _, key := range sortedKeys(wantInv) {
+		want := wantInv[key]
 		rc.Evals["C18.c7"]++
-		if n := invites[fmt.Sprintf("inv%d", i)]; n != 1 {
-			rc.Failf("C18.c7", fmt.Sprintf("invitation-delivered-%d-times", n), "invitation inv%d reached HandleInvite %d times", i, n)
+		if n := invites[key]; n != want {
+			form := "with-content"
+			if key == "||" {
+				form = "bare"
+			}
+			rc.Failf("C18.c7", fmt.Sprintf("invitation-delivered-%d-times-of-%d:%s", n, want, form), "%d invitation(s) %q (reason|password|thread) were relayed, HandleInvite saw %d; all callbacks %v", want, key, n, invites)
+		}
+	}
+	for _, key := range sortedKeys(invites) {
+		n := invites[key]
+		if wantInv[key] == 0 {
+			rc.Failf("C18.c7", "invitation-invented", "HandleInvite was called %d times with %q which no invitation carried", n, key)
 		}
 	}
 	rc.Spawn("peer-close", func() { e.PeerWrite(closeTag) })
